@@ -4,7 +4,7 @@
 WHICH="${1:-all}"
 cd /verif || exit 2
 R1="C01 C02 C03 C04 C05 C06 C07 C08 C09 C10 C11 C12 C13 C16 C17 C18 C19 C20"
-R2="C01 C02 C03 C04 C07 C09 C11 C12 C16 C18"
+R2="C01 C02 C03 C04 C06 C07 C09 C10 C11 C12 C16 C18"
 rm -f /tmp/sweep_slot*.log
 run_slot() { # slot, list of "flag:prop"
   local slot=$1; shift
